@@ -47,7 +47,9 @@ partial def monitorLoop (h : IO.FS.Stream) (out : IO.FS.Stream) (b : Fosite.Spec
     out.putStrLn ""
     monitorLoop h out {} {}
   else
-    let f := fields op
+    let f := match fields op with
+      | "authorizeRU" :: rest => "authorize" :: rest.dropLast    -- judged like the plain authorization request
+      | f => f
     let o := Fosite.Spec.Monitor.outSeg obs
     let a := match f with
       | "cfg" :: rest => { a with tx := kv rest "tx" == "1" }
